@@ -181,7 +181,8 @@ func (s *generateState) generateType(t schema.Type, selections []ast.Selection, 
 		if len(typeConditions) > 0 {
 			s.requiresJSONImport = true
 			tName := t.(schema.NamedType).TypeName()
-			name := "sel" + tName + strconv.Itoa(s.outputStructCount)
+			// the separator keeps names of different types apart (Node + 10 vs Node1 + 0)
+			name := "sel" + tName + "_" + strconv.Itoa(s.outputStructCount)
 			s.output += `
 				type ` + name + ` ` + ret + `
 
